@@ -243,6 +243,12 @@ class HierarchicalMarkupMachine(MarkupMachine, HierarchicalMachine):
         super(HierarchicalMarkupMachine, self).on_exit(state_name, callback)
         self._needs_update = True
 
+    def get_markup_config(self):
+        # the markup describes the whole machine; convert from the root even when requested
+        # while the machine is scoped into a nested state (e.g. during add_states)
+        with self():
+            return super(HierarchicalMarkupMachine, self).get_markup_config()
+
 
 def rep(func, format_references=None):
     """Return a string representation for `func`."""
